@@ -271,7 +271,7 @@ fn same(s: &Set, u: &Uni, k: &Know, flip: bool) -> bool {
     *s == spec(u, k, flip)
 }
 
-//@ harness props=C04,C07,C01 covers=3 name=Orswot reads: on SPEC(U,K), read/contains/iter return exactly the members with a surviving witness, their witness clocks as rm context and the knowledge clock as add context
+//@ harness props=C04,C07,C01 covers=3 bounds=thorough:big name=Orswot reads: on SPEC(U,K), read/contains/iter return exactly the members with a surviving witness, their witness clocks as rm context and the knowledge clock as add context
 #[no_mangle]
 pub fn h_orswot_reads(inp: &Inp) -> u8 {
     let mut i = In::new(inp);
@@ -293,7 +293,7 @@ pub fn h_orswot_reads(inp: &Inp) -> u8 {
     }
 }
 
-//@ harness props=C01,C04,C20 name=Orswot L_init: the empty set is SPEC(U, {})
+//@ harness props=C01,C04,C20 bounds=thorough:big name=Orswot L_init: the empty set is SPEC(U, {})
 #[no_mangle]
 pub fn h_orswot_init(inp: &Inp) -> u8 {
     let mut i = In::new(inp);
@@ -306,7 +306,7 @@ pub fn h_orswot_init(inp: &Inp) -> u8 {
     same(&s, &u, &k, false) as u8
 }
 
-//@ harness props=C01,C04,C08,C20 covers=3,4 name=Orswot L_apply(add): applying the next add of any actor to SPEC(U,K) gives SPEC(U,K+e) for every K (no causal assumption)
+//@ harness props=C01,C04,C08,C20 covers=3,4 bounds=thorough:big name=Orswot L_apply(add): applying the next add of any actor to SPEC(U,K) gives SPEC(U,K+e) for every K (no causal assumption)
 #[no_mangle]
 pub fn h_orswot_apply_add(inp: &Inp) -> u8 {
     let mut i = In::new(inp);
@@ -343,7 +343,7 @@ pub fn h_orswot_apply_add(inp: &Inp) -> u8 {
     cov
 }
 
-//@ harness props=C01,C04,C08,C20 covers=3,4 name=Orswot L_apply(rm): applying any not-yet-applied remove to SPEC(U,K) gives SPEC(U,K+e) for every K, including overtaking removes
+//@ harness props=C01,C04,C08,C20 covers=3,4 bounds=thorough:big name=Orswot L_apply(rm): applying any not-yet-applied remove to SPEC(U,K) gives SPEC(U,K+e) for every K, including overtaking removes
 #[no_mangle]
 pub fn h_orswot_apply_rm(inp: &Inp) -> u8 {
     let mut i = In::new(inp);
@@ -375,7 +375,7 @@ pub fn h_orswot_apply_rm(inp: &Inp) -> u8 {
     }
 }
 
-//@ harness props=C09,C04,C20 covers=3,4 name=Orswot L_dup: re-applying any already-applied add or remove leaves SPEC(U,K) unchanged (== and reads)
+//@ harness props=C09,C04,C20 covers=3,4 bounds=thorough:big name=Orswot L_dup: re-applying any already-applied add or remove leaves SPEC(U,K) unchanged (== and reads)
 #[no_mangle]
 pub fn h_orswot_dup(inp: &Inp) -> u8 {
     let mut i = In::new(inp);
@@ -425,7 +425,7 @@ fn slice_eq(x: &Set, y: &Set, v: u8) -> bool {
     }
 }
 
-//@ harness props=C02,C03,C08,C09,C20 variants=NM+2 bounds=quick:small,thorough:base covers=3,4,5 name=Orswot L_merge: merge(SPEC(U,K1), SPEC(U,K2)) == SPEC(U, K1 u K2) for all knowledge pairs (incl. pending removes, stale and equal states); one output slice per variant
+//@ harness props=C02,C03,C08,C09,C20 variants=NM+2 bounds=quick:small,thorough:small covers=3,4,5 name=Orswot L_merge: merge(SPEC(U,K1), SPEC(U,K2)) == SPEC(U, K1 u K2) for all knowledge pairs (incl. pending removes, stale and equal states); one output slice per variant
 #[no_mangle]
 pub fn h_orswot_merge(inp: &Inp) -> u8 {
     let mut i = In::new(inp);
@@ -456,7 +456,7 @@ pub fn h_orswot_merge(inp: &Inp) -> u8 {
     }
 }
 
-//@ harness props=C07,C04,C16 covers=3 name=Orswot op generation from reads: add/add_all/rm/rm_all built from read(), read_ctx(), contains() contexts on SPEC(U,K) are exactly the universe ops (fresh next dot, remove context = what was observed)
+//@ harness props=C07,C04,C16 covers=3 bounds=thorough:big name=Orswot op generation from reads: add/add_all/rm/rm_all built from read(), read_ctx(), contains() contexts on SPEC(U,K) are exactly the universe ops (fresh next dot, remove context = what was observed)
 #[no_mangle]
 pub fn h_orswot_gen(inp: &Inp) -> u8 {
     let mut i = In::new(inp);
@@ -774,6 +774,36 @@ pub fn h_orswot_reset_remove(inp: &Inp) -> u8 {
         3
     } else if pending(&u, &k, 0) {
         4
+    } else {
+        1
+    }
+}
+
+//@ harness props=C04,C08,C20 covers=3 bounds=thorough:big name=Orswot L_apply(rm, equal context): a second remove that carries the SAME context as an already applied (possibly pending) remove but other members acts like one remove of the union of the members
+#[no_mangle]
+pub fn h_orswot_apply_rm_same_ctx(inp: &Inp) -> u8 {
+    let mut i = In::new(inp);
+    let u = any_uni(&mut i);
+    let k = any_know(&mut i, &u);
+    let flip = i.bool();
+    let mask2 = i.below(1 << NM);
+    i.assume(k.rms[0]);
+    if !i.ok {
+        return 2;
+    }
+    let mut s = spec(&u, &k, flip);
+    let op = Op::Rm { clock: vc_from(|a| u.rm_ctx[0][a as usize]), members: mask_vec(mask2) };
+    if s.validate_op(&op).is_err() {
+        return 0;
+    }
+    s.apply(op);
+    let mut u2 = u.clone();
+    u2.rm_mem[0] |= mask2;
+    if !same(&s, &u2, &k, !flip) {
+        return 0;
+    }
+    if pending(&u, &k, 0) && (mask2 & !u.rm_mem[0]) != 0 {
+        3 // the pending remove gains members
     } else {
         1
     }
